@@ -19,7 +19,7 @@ const acorn = require('internal/deps/acorn/acorn/dist/acorn');
 const PRELUDE = new vm.Script(fs.readFileSync(path.join(__dirname, 'c01_prelude.js'), 'utf8'), { filename: 'c01_prelude.js' });
 const KEY = Symbol.for('c01');
 const T_IN = parseInt(process.env.C01_TIMEOUT || '25', 10);       // ms, input run
-const T_OUT = Math.max(1000, T_IN * 20);                                             // output gets 20x before "does not terminate"
+const T_OUT = Math.max(10000, T_IN * 40);   // "does not terminate" needs a 400x margin (loaded machines)                                             // output gets 20x before "does not terminate"
 
 // names that stay bound to the realm's own builtins (never replaced by environment values)
 const BUILTINS = new Set(['undefined', 'NaN', 'Infinity', 'globalThis', 'Object', 'Function', 'Array', 'Number', 'parseFloat', 'parseInt',
